@@ -884,6 +884,83 @@ func runC08(c *ev.Ctx) {
 			res[k] = v
 		}
 	}
+	// several Fast workflows at the same time in one process, each on its own source (a slow run on an
+	// accepted stream overlapped by runs on a failing stream, and the other way round): what is shared
+	// between concurrent parallel detections must not leak from one into the other
+	{
+		r := gen.NewRng(gen.Mix(seed, 8844))
+		var cg [][]Scn
+		var cscns []Scn
+		for _, pr := range [][2]string{{"PeriodFast", "PeriodFast"}, {"PowerOnFast", "PowerOnFast"}, {"PeriodFast", "PowerOnFast"}, {"PeriodFast", "Period"}} {
+			for flip := 0; flip < 2; flip++ {
+				wa, wb := workflows[pr[0]], workflows[pr[1]]
+				if flip == 1 && (wa.S != wb.S || wa.Items != wb.Items) {
+					continue
+				}
+				good := baseMatrix(r, wa.S, wa.Items)
+				for i := 0; i < wa.Items; i++ {
+					setPassCount(r, good, i, oracle.Threshold(wa.S))
+				}
+				bad := baseMatrix(r, wb.S, wb.Items)
+				for i := 0; i < wb.Items; i++ {
+					for j := range bad {
+						bad[j][i].Q = 0.95
+					}
+				}
+				ma, mb, what := good, bad, "accepted stream while the other judges a failing one"
+				if flip == 1 {
+					ma, mb, what = bad, good, "failing stream while the other judges an accepted one"
+				}
+				var g []Scn
+				id++
+				g = append(g, Scn{ID: id, WF: pr[0], Stream: Stream{Kind: "matrix", Seed: r.U64(), Matrix: ma}, Stub: true, Chunk: mon.ChunkPlan{Kind: "whole"}, Delay: mon.DelayPlan{Mode: "slow", Seed: r.U64()}, Note: fmt.Sprintf("concurrent detections: slow %s on an %s (%s)", pr[0], what, pr[1])})
+				for k, mode := range []string{"none", "sleep", "slow"} {
+					id++
+					g = append(g, Scn{ID: id, WF: pr[1], Stream: Stream{Kind: "matrix", Seed: r.U64(), Matrix: mb}, Stub: true, Chunk: mon.ChunkPlan{Kind: "whole"}, Delay: mon.DelayPlan{Mode: mode, Seed: r.U64()}, Note: fmt.Sprintf("concurrent detections: %s next to a slow %s, start %d", pr[1], pr[0], k)})
+				}
+				cg = append(cg, g)
+				cscns = append(cscns, g...)
+			}
+		}
+		plain := runConcGroups(cg, "c08conc", false)
+		var raced map[int]*Res
+		if !c.Lite() {
+			raced = runConcGroups(cg, "c08concr", true)
+		}
+		c.Count("concurrent_detection_groups", int64(len(cg)))
+		for _, pass := range []struct {
+			name string
+			m    map[int]*Res
+		}{{"", plain}, {" [-race build]", raced}} {
+			if pass.m == nil {
+				continue
+			}
+			for _, sc := range cscns {
+				rr := pass.m[sc.ID]
+				key := fmt.Sprintf("%s:%s%s", sc.WF, sc.Note, pass.name)
+				if rr == nil {
+					c.Inconclusive("no result: " + key)
+					continue
+				}
+				c.Eval(ev.HashStr(key), true)
+				c.Count("fast_runs_next_to_another_detection", 1)
+				if rr.Status == "timeout" {
+					c.Inconclusive(key + ": watchdog fired")
+					continue
+				}
+				if rr.Status != "returned" {
+					c.Violation(key+":"+rr.Status, fmt.Sprintf("%s did not return normally while another detection ran in the same process (%s): %s", sc.WF, rr.Status, clip(rr.Crash, 1500)), "wf", sc)
+					continue
+				}
+				if rr.ModelKnown && !rr.ModelAmbig && rr.Verdict != rr.ModelOK {
+					c.Violation(key+":verdict", fmt.Sprintf("%s verdict %v (err %q) next to another detection; the decision rule on its own samples says %v", sc.WF, rr.Verdict, rr.Err, rr.ModelOK), "wf", sc)
+				}
+				if rr.Verdict != !rr.HasErr {
+					c.Violation(key+":verdict-error-mismatch", fmt.Sprintf("verdict=%v err=%q", rr.Verdict, rr.Err), "wf", sc)
+				}
+			}
+		}
+	}
 	byID := map[int]Scn{}
 	for _, s := range scns {
 		byID[s.ID] = s
